@@ -105,7 +105,7 @@ func seededSeqJobs(e *lib.Env, n int) []job {
 // wrapJobs: operations spread over the five slots of route /wops. Every distribution of
 // up to maxTotal base operations over the slots is enumerated; beyond that, seeded cases
 // with 0..2 operations per middleware slot and 0..3 in the handler.
-func wrapJobs(e *lib.Env, maxTotal, seeded int) []job {
+func wrapJobs(e *lib.Env, maxTotal, maxTotalExt, seeded int) []job {
 	var cases []string
 	seen := map[string]bool{}
 	add := func(slots [][]uint8) {
@@ -115,21 +115,22 @@ func wrapJobs(e *lib.Env, maxTotal, seeded int) []job {
 			cases = append(cases, s)
 		}
 	}
-	var rec func(slots [][]uint8, minSlot, left int)
-	rec = func(slots [][]uint8, minSlot, left int) {
+	var rec func(slots [][]uint8, minSlot, left, alpha int)
+	rec = func(slots [][]uint8, minSlot, left, alpha int) {
 		add(slots)
 		if left == 0 {
 			return
 		}
 		for sl := minSlot; sl < 5; sl++ {
-			for o := 0; o < baseOps; o++ {
+			for o := 0; o < alpha; o++ {
 				c := cloneSlots(slots)
 				c[sl] = append(c[sl], uint8(o))
-				rec(c, sl, left-1)
+				rec(c, sl, left-1, alpha)
 			}
 		}
 	}
-	rec(make([][]uint8, 5), 0, maxTotal)
+	rec(make([][]uint8, 5), 0, maxTotal, baseOps)
+	rec(make([][]uint8, 5), 0, maxTotalExt, extOps)
 	r := e.Rand("wrap")
 	for n := 0; n < seeded; n++ {
 		slots := make([][]uint8, 5)
@@ -452,12 +453,15 @@ func drive() {
 	maxBase := e.Pick(5, 6)
 	maxExt := e.Pick(3, 4)
 	maxMw := e.Pick(4, 5)
+	maxExtMw := e.Pick(2, 3)
 	var jobs []job
 	jobs = append(jobs, enumJobs("/ops", baseOps, maxBase, false)...)
 	jobs = append(jobs, enumJobs("/ops", extOps, maxExt, true)...)
 	jobs = append(jobs, enumJobs("/mops", baseOps, maxMw, false)...)
 	jobs = append(jobs, enumJobs("/eops", baseOps, maxMw, false)...)
-	jobs = append(jobs, wrapJobs(e, e.Pick(2, 3), e.Pick(15000, 300000))...)
+	jobs = append(jobs, enumJobs("/mops", extOps, maxExtMw, true)...)
+	jobs = append(jobs, enumJobs("/eops", extOps, maxExtMw, true)...)
+	jobs = append(jobs, wrapJobs(e, e.Pick(2, 3), 2, e.Pick(15000, 300000))...)
 	jobs = append(jobs, seededSeqJobs(e, e.Pick(20000, 1000000))...)
 	mj, orders := mwJobs(e)
 	jobs = append(jobs, mj...)
@@ -554,9 +558,10 @@ func drive() {
 		}
 		return a
 	}())
-	e.Extra("exhaustive_scope", fmt.Sprintf("all sequences of length <= %d over the %d-op base alphabet on a bare route; length <= %d over the %d-op extended alphabet; length <= %d behind two transparent middlewares and on the throwing route answered by onError; every distribution of <= %d base operations over the 5 slots (before/after $next in two middlewares, handler); all %d registration orders of sub-multisets of priorities {-1,0,0,1,5}; every valid interleaving of two groups (sibling or nested) x own middleware x routes on groups and parent, for 0..9 global middlewares; seeded beyond (length 7..12, stacks of 13..40 registrations, 2..3 groups with late parent middlewares)", maxBase, baseOps, maxExt, extOps, maxMw, e.Pick(2, 3), orders))
+	e.Extra("exhaustive_scope", fmt.Sprintf("all sequences of length <= %d over the %d-op base alphabet on a bare route; length <= %d over the %d-op extended alphabet; length <= %d (base) / <= %d (extended) behind two transparent middlewares and on the throwing route answered by onError; every distribution of <= %d base / <= 2 extended operations over the 5 slots (before/after $next in two middlewares, handler); all %d registration orders of sub-multisets of priorities {-1,0,0,1,5}; every valid interleaving of two groups (sibling or nested) x own middleware x routes on groups and parent, for 0..9 global middlewares; seeded beyond (length 7..12, stacks of 13..40 registrations, 2..3 groups with late parent middlewares)", maxBase, baseOps, maxExt, extOps, maxMw, maxExtMw, e.Pick(2, 3), orders))
 	e.Assume(
 		"a terminal call that carries its own status (redirect 302/arg, noContent 204/arg, writeHeader arg, html's optional status) counts as setting that status at the moment of the call",
+		"write('') / html('') are body write calls and therefore the commit point although they add no byte (net/http: Write([]byte{}) sends the header; the repository's own tests use ->write('') as the commit idiom)",
 		"the underlying writer accepts body bytes for every status (like httptest.ResponseRecorder); net/http's own 204/304 body rules are not part of the property",
 		"the statement does not say whether the return of an inner layer (handler inside a middleware, throwing handler before onError) commits a pending status: every combination is accepted; one header commit, the concatenated body and no post-commit influence are demanded under each",
 	)
